@@ -66,9 +66,9 @@ class Spec:
         it = items[0]
         return (it["trace"], it["parent"], it["sampled"])
 
-    def deliver(self, name, item, parent, props, events, kind):
+    def deliver(self, name, item, parent, props, events, kind, born=None, fin=None):
         self.expected.append({"name": name, "trace": item["trace"], "parent": parent, "props": list(props),
-                              "events": list(events), "root": item["root"], "fin": self.pos, "kind": kind})
+                              "events": list(events), "root": item["root"], "fin": self.pos if fin is None else fin, "kind": kind, "born": born})
 
     def close_guard(self, t, g):
         th = self.th(t)
@@ -77,6 +77,7 @@ class Spec:
             if e is not None:
                 sc = g[2]
                 sc["open"].pop()
+                e["closed"] = self.pos
         elif g[0] == "scope":
             sc = g[1]
             if sc is not None:
@@ -85,7 +86,8 @@ class Spec:
                     if not it["sampled"]:
                         continue
                     for e in sc["entries"]:
-                        self.deliver(e["name"], it, e["parent"] or it["parent"], e["props"], e["events"], "local")
+                        self.deliver(e["name"], it, e["parent"] or it["parent"], e["props"], e["events"], "local", born=e["born"], fin=None)
+                        self.expected[-1]["closed"] = e["closed"]
                     # attachments made with no local span open go to the span set as local parent
                     owner = sc["owner"]
                     for a in sc["to_owner"]:
@@ -99,7 +101,7 @@ class Spec:
         self.th(t)["touched"] = True
 
     def new_span(self, v, name, items, root_key=None):
-        self.spans[v] = {"name": name, "items": items, "root_key": root_key, "props": [], "events": [], "attached": [], "var": v}
+        self.spans[v] = {"name": name, "items": items, "root_key": root_key, "props": [], "events": [], "attached": [], "var": v, "born": self.pos}
 
     def apply(self, line, pos):
         """updates the expectation with one program line (`<thread> <op> args`)"""
@@ -205,7 +207,7 @@ class Spec:
             if sc is None or not sc["sampled"] or sc["qlen"] >= QUEUE_CAP:
                 th["guards"].append(("local", None, None))
                 return
-            e = {"name": name, "parent": ("span", sc["open"][-1]["name"]) if sc["open"] else None, "props": [], "events": []}
+            e = {"name": name, "parent": ("span", sc["open"][-1]["name"]) if sc["open"] else None, "props": [], "events": [], "born": pos, "closed": None}
             sc["entries"].append(e)
             sc["qlen"] += 1
             sc["open"].append(e)
@@ -252,7 +254,8 @@ class Spec:
                 if it["sampled"]:
                     self.touch(t)
                     for e in ents:
-                        self.deliver(e["name"], it, e["parent"] or it["parent"], e["props"], e["events"], "pushed")
+                        self.deliver(e["name"], it, e["parent"] or it["parent"], e["props"], e["events"], "pushed", born=e["born"])
+                        self.expected[-1]["closed"] = e["closed"]
         elif op == "exit":
             while th["guards"]:
                 g = th["guards"].pop()
@@ -327,7 +330,8 @@ class Spec:
                         props += x[1]
                     else:
                         events.append((x[1], x[2]))
-                self.deliver(sp["name"], it, it["parent"], props, events, "span")
+                self.deliver(sp["name"], it, it["parent"], props, events, "span", born=sp["born"])
+                self.expected[-1]["closed"] = pos
         if sp["root_key"]:
             self.touch(t)
             if sp["root_key"] != "U":
